@@ -967,6 +967,8 @@ encode:
         psFree(out->buf, ssl->bufferPool);
         if ((out->buf = psMalloc(ssl->bufferPool, requiredLen)) == NULL)
         {
+            out->start = out->end = NULL;
+            out->size = 0;
             return PS_MEM_FAIL;
         }
         out->start = out->end = out->buf;
@@ -1193,13 +1195,18 @@ int32 matrixDtlsGetOutdata(ssl_t *ssl, unsigned char **buf)
         }
 
         /* A true flight resend is needed */
-        if ((rc = dtlsResendFlight(ssl, &tmp)) < 0)
+        rc = dtlsResendFlight(ssl, &tmp);
+        /* dtlsResendFlight may have replaced the buffer (SSL_FULL) even when
+           it fails afterwards: never leave ssl->outbuf pointing at freed
+           memory */
+        ssl->outbuf = tmp.buf;
+        ssl->outsize = tmp.size;
+        if (rc < 0)
         {
+            ssl->outlen = 0;
             return rc;
         }
-        ssl->outbuf = tmp.buf;
         ssl->outlen = tmp.end - tmp.start;
-        ssl->outsize = tmp.size;
     }
 
 /*
